@@ -442,6 +442,7 @@ class Program:
         self.drops = {}  # SelfTy -> Func (Drop::drop)
         self.closures = {}  # "{closure@file:line:col: line:col}" -> Func
         self.promoted = {}  # "<function name>::promoted[k]" -> Func
+        self.const_items = {}  # NAME of a named `const` item with a MIR body -> [Func]
         self._src_cache = {}
         for f in funcs:
             self._index(f)
@@ -456,6 +457,9 @@ class Program:
         return ls[line - 1] if 0 < line <= len(ls) else ""
 
     def _index(self, f):
+        if getattr(f, "const_item", False):
+            self.const_items.setdefault(f.name, []).append(f)
+            return
         if f.promoted:
             self.promoted[f.name] = f
         if f.promoted or "{closure" in f.name or "{constant" in f.name:
@@ -915,6 +919,10 @@ class Executor:
                 f = self.P.promoted.get(frame.func.name + f"::promoted[{pm.group(1)}]")
                 if f is not None:
                     return self.run_function(f, [], 3)
+            cm = re.match(r"^(?:\w+::)*([A-Z][A-Z0-9_]*)$", op.const.strip())
+            if cm and len(self.P.const_items.get(cm.group(1), [])) == 1:
+                # a named const item of the crate (a table): evaluate its MIR body
+                return self.run_function(self.P.const_items[cm.group(1)][0], [], 3)
             return self.const(op.const)
         root, path = self.resolve_place(frame, op.place)
         v = self.read(root, path)
@@ -987,6 +995,8 @@ class Executor:
         k = rv.kind
         if k == "use":
             return self.operand(frame, rv.op)
+        if k == "fnitem":
+            return VFn(rv.path)
         if k == "ref":
             root, path = self.resolve_place(frame, rv.place)
             return VRef(root, path, rv.mut)
